@@ -66,4 +66,5 @@ var genericCmds = map[string]func(common.Args, *common.Out) error{
 	"emureplay":   generic.EmuReplay,
 	"gwreplay":    generic.WideReplay,
 	"hashreplay":  generic.HashReplay,
+	"curvereplay": generic.CurveReplay,
 }
